@@ -196,6 +196,87 @@ theorem embedded_shape (s s' : St) (e : PEv) (hs : pEmbedded s e = some s') :
         rw [this]
   · simp at hs
 
+
+/-- the four ways a protocol event is embedded in a channel operation, with the protocol
+    steps it stands for spelled out -/
+theorem embedded_cases (s s' : St) (e : PEv) (hs : pEmbedded s e = some s') :
+    (s.pc (pactor e) = .rEmpty ∧ ∃ p1 p2, pstep s.p (.callWait (pactor e)) = some p1 ∧ pstep p1 e = some p2 ∧
+        s' = { s with p := p2, pc := upd s.pc (pactor e) .rWaiting }) ∨
+    (s.pc (pactor e) = .rWaiting ∧ ∃ p2, pstep s.p e = some p2 ∧
+        ((p2.pc (pactor e) = .waitDone ∧ ∃ p3, pstep p2 (.retWait (pactor e)) = some p3 ∧
+            s' = { s with p := p3, pc := upd s.pc (pactor e) .rTop }) ∨
+         (p2.pc (pactor e) ≠ .waitDone ∧ s' = { s with p := p2 }))) ∨
+    (∃ v, s.pc (pactor e) = .sPublished v ∧ ∃ p1 p2, pstep s.p (.callRaise (pactor e)) = some p1 ∧
+        pstep p1 e = some p2 ∧
+        ((∃ r p3, p2.pc (pactor e) = .raiseDone r ∧ pstep p2 (.retRaise (pactor e) r) = some p3 ∧
+            s' = { s with p := p3, pc := upd s.pc (pactor e) (.sRaised v r) }) ∨
+         ((∀ r, p2.pc (pactor e) ≠ .raiseDone r) ∧
+            s' = { s with p := p2, pc := upd s.pc (pactor e) (.sRaising v) }))) ∨
+    (∃ v, s.pc (pactor e) = .sRaising v ∧ ∃ p2, pstep s.p e = some p2 ∧
+        ((∃ r p3, p2.pc (pactor e) = .raiseDone r ∧ pstep p2 (.retRaise (pactor e) r) = some p3 ∧
+            s' = { s with p := p3, pc := upd s.pc (pactor e) (.sRaised v r) }) ∨
+         ((∀ r, p2.pc (pactor e) ≠ .raiseDone r) ∧ s' = { s with p := p2 }))) := by
+  simp only [pEmbedded] at hs
+  split at hs
+  · rename_i hpc
+    cases h1 : pstep s.p (.callWait (pactor e)) with
+    | none => simp [h1] at hs
+    | some p1 =>
+      cases h2 : pstep p1 e with
+      | none => simp [h1, h2] at hs
+      | some p2 =>
+        simp [h1, h2] at hs; subst hs
+        exact Or.inl ⟨hpc, p1, p2, rfl, h2, rfl⟩
+  · rename_i hpc
+    cases h2 : pstep s.p e with
+    | none => simp [h2] at hs
+    | some p2 =>
+      simp only [h2, Option.bind_eq_bind, Option.bind_some] at hs
+      split at hs
+      · rename_i hd
+        cases h3 : pstep p2 (.retWait (pactor e)) with
+        | none => simp [h3] at hs
+        | some p3 =>
+          simp [h3] at hs; subst hs
+          exact Or.inr (Or.inl ⟨hpc, p2, rfl, Or.inl ⟨hd, p3, h3, rfl⟩⟩)
+      · rename_i hd
+        simp at hs; subst hs
+        exact Or.inr (Or.inl ⟨hpc, p2, rfl, Or.inr ⟨hd, rfl⟩⟩)
+  · rename_i v hpc
+    cases h1 : pstep s.p (.callRaise (pactor e)) with
+    | none => simp [h1] at hs
+    | some p1 =>
+      cases h2 : pstep p1 e with
+      | none => simp [h1, h2] at hs
+      | some p2 =>
+        simp only [h1, h2, Option.bind_eq_bind, Option.bind_some] at hs
+        split at hs
+        · rename_i r hr
+          cases h3 : pstep p2 (.retRaise (pactor e) r) with
+          | none => simp [h3] at hs
+          | some p3 =>
+            simp [h3] at hs; subst hs
+            exact Or.inr (Or.inr (Or.inl ⟨v, hpc, p1, p2, rfl, h2, Or.inl ⟨r, p3, hr, h3, rfl⟩⟩))
+        · rename_i hnr
+          simp at hs; subst hs
+          exact Or.inr (Or.inr (Or.inl ⟨v, hpc, p1, p2, rfl, h2, Or.inr ⟨fun r hr => hnr r hr, rfl⟩⟩))
+  · rename_i v hpc
+    cases h2 : pstep s.p e with
+    | none => simp [h2] at hs
+    | some p2 =>
+      simp only [h2, Option.bind_eq_bind, Option.bind_some] at hs
+      split at hs
+      · rename_i r hr
+        cases h3 : pstep p2 (.retRaise (pactor e) r) with
+        | none => simp [h3] at hs
+        | some p3 =>
+          simp [h3] at hs; subst hs
+          exact Or.inr (Or.inr (Or.inr ⟨v, hpc, p2, rfl, Or.inl ⟨r, p3, hr, h3, rfl⟩⟩))
+      · rename_i hnr
+        simp at hs; subst hs
+        exact Or.inr (Or.inr (Or.inr ⟨v, hpc, p2, rfl, Or.inr ⟨fun r hr => hnr r hr, rfl⟩⟩))
+  · simp at hs
+
 /-- every protocol event of the channel model: only `p` and (possibly) the actor's pc change,
     along an allowed transition -/
 theorem proto_shape (s s' : St) (pe : PEv) (hs : step s (.p pe) = some s') :
